@@ -75,6 +75,10 @@ class AuthAdapter:
         self._begin()
 
     def _begin(self):
+        # an application that seeds the global PRNG (reproducible runs, a restarted service): the
+        # freshness of a challenge must not rest on the state of the `random` module
+        import random
+        random.seed(20260923)
         self.l2c, self.c2l = Chan(), Chan()
         self.cos = {}
         self.lpc = 'L1' if self.mode in ('honest', 'hostile_client') else 'L1'
